@@ -106,6 +106,24 @@ def gen(rng, tier):
                                ["+".join(req("GET", "/n201")) for _ in range(post)])
                 cases.append("D 100 ok %s" % seq)
         cases.append("S 100 ok 0 0 %s" % "+".join(["+".join(req("GET", "/n200")), "+".join(req("GET", beh)), "+".join(req("GET", "/n200"))]))
+    # pipelined requests with LONG heads (2..7 KiB) delivered so that a read ends inside a later head while the buffer
+    # still has a free tail: every head below the 8 KiB buffer must be served whatever the buffer offset it starts at
+    for k in range(10 if tier == "quick" else 200):
+        sizes = [rng.choice([2000, 3000, 4000, 5000, 6000, 7000, 8000]) for _ in range(rng.randint(2, 4))]
+        reqs = ["+".join(req("GET", "/n20%d" % (j % 2), headers=[("X-Pad", "p" * sz)])) for j, sz in enumerate(sizes)]
+        first = len("GET /n200 HTTP/1.1\r\nX-Pad: \r\n\r\n") + sizes[0]
+        cut = first + rng.choice([1, 500, 1000, 2000, sizes[1] // 2])
+        cases.append("S 100 ok %d,%d,100000 %d %s" % (cut, rng.choice([1, 1000, 100000]), rng.choice([5, 20]), "+".join(reqs)))
+    # an Expect: 100-continue request whose body the handler never asks for, answered 2xx/3xx; the client sends the body
+    # anyway, later: its bytes must never be served as a request
+    for k in range(6 if tier == "quick" else 60):
+        L = rng.choice([70000, 65537, 100000])
+        head = "+".join(req("POST", rng.choice(["/n200", "/n301", "/e204"]), headers=[("Expect", "100-continue")], body=(L, k + 1)))
+        parts = head.split("+")
+        hlen = (len(parts[0]) - 1) // 2
+        smug = hx("GET /n201 HTTP/1.1\r\n\r\n")
+        # the "body" starts with something that looks like a request
+        cases.append("S 100 ok %d,100000 %d %s+%s+g%d,%d" % (hlen, rng.choice([20, 60]), parts[0], smug, L - 22, k + 7))
     # full server: delivery schedules and panics
     ns = 40 if tier == "quick" else 2000
     for _ in range(ns):
